@@ -5,6 +5,8 @@ import (
 	"fmt"
 	"io"
 	"math/big"
+	"os"
+	"path/filepath"
 	"strconv"
 	"strings"
 
@@ -225,7 +227,7 @@ func checkRange(r *rep.Reporter, kind, via string, size int64, full []byte, h st
 func runC11(c *Ctx) {
 	r := c.R
 	maxSize := r.Pick(12, 64)
-	r.SetRule(fmt.Sprintf("object sizes 0..%d exhaustively x first,last,suffix in -1..size+2 in all three forms, boundary values around 2^31/2^63/2^64, whitespace, signs, multiple ranges, other units, plus a 70001-byte object with boundary and random ranges; every backend, HTTP GET and Go Backend.GetObject; distinct = (backend, via, size, header)", maxSize))
+	r.SetRule(fmt.Sprintf("object sizes 0..%d exhaustively x first,last,suffix in -1..size+2 in all three forms, boundary values around 2^31/2^63/2^64, whitespace, signs, multiple ranges, other units, plus a 70001-byte object with boundary and random ranges; on the directory-backed filesystem backends also files the server did not write (dropped into its directory before it starts, or rewritten behind its back) whose very first access is a ranged GET; every backend, HTTP GET and Go Backend.GetObject; distinct = (backend, via, size, header)", maxSize))
 	r.Exhaustive(true)
 	r.Set("exhaustive_scope", fmt.Sprintf("sizes 0..%d x {first-last, first-, -suffix} with values -1..size+2 on 6 backends via HTTP and Go API", maxSize))
 	kinds := drv.AllKinds
@@ -367,6 +369,77 @@ func runC11(c *Ctx) {
 			s.Close()
 		}
 	}
+	// Objects the server did not write itself: the filesystem backends serve whatever files
+	// exist under their directory (the single-bucket backend exists for exactly that), and
+	// compute size/ETag on first access. A ranged GET as the very first access to such a
+	// file, or to a file rewritten behind the server's back, must still return the range.
+	for _, kind := range []string{drv.FsDir, drv.SingleDir} {
+		dir, err := os.MkdirTemp(drv.WorkRoot(), "c11-adopted-")
+		if err != nil {
+			if err = os.MkdirAll(drv.WorkRoot(), 0755); err == nil {
+				dir, err = os.MkdirTemp(drv.WorkRoot(), "c11-adopted-")
+			}
+			if err != nil {
+				r.Inconclusive("cannot create a scratch directory: " + err.Error())
+				break
+			}
+		}
+		bucket, root := "adopted", filepath.Join(dir, "data", "buckets", "adopted")
+		if drv.IsSingle(kind) {
+			bucket, root = drv.SingleName, filepath.Join(dir, "data")
+		}
+		os.MkdirAll(root, 0755)
+		rng := gen.Rng(r.Seed, "C11-adopted-"+kind, 0)
+		type adopted struct {
+			key  string
+			full []byte
+			h    string
+		}
+		var cases []adopted
+		n := 0
+		for _, size := range []int{1, 2, 10, 100, 5000, 70001} {
+			hs := []string{"bytes=1-", "bytes=0-0", "bytes=-1", fmt.Sprintf("bytes=%d-%d", size/2, size), fmt.Sprintf("bytes=-%d", size/2+1), fmt.Sprintf("bytes=%d-", size-1), "bytes=1-1", ""}
+			for _, h := range hs {
+				n++
+				full := gen.Body(rng, size, gen.PatRandom, uint32(n))
+				key := fmt.Sprintf("dropped-%d-%d", size, n)
+				if err := os.WriteFile(filepath.Join(root, key), full, 0644); err != nil {
+					r.Inconclusive("cannot write a scratch file: " + err.Error())
+				}
+				cases = append(cases, adopted{key, full, h})
+			}
+		}
+		s := mustServer(drv.Opts{Kind: kind, Dir: dir})
+		for _, c := range cases {
+			q := &drv.Req{Method: "GET", Path: drv.ObjPath(bucket, c.key)}
+			if c.h != "" {
+				q.Header = drv.H("Range", c.h)
+			}
+			resp := s.Do(q)
+			r.Count("first_access_to_adopted_file", 1)
+			checkRange(r, kind, "http-adopted-file", int64(len(c.full)), c.full, c.h, rangeObs{status: resp.Status, code: resp.ErrCode(), body: resp.Body,
+				clen: resp.Header.Get("Content-Length"), crange: resp.Header.Get("Content-Range"), panicV: resp.Panic})
+			if resp.Status == 200 && c.h == "" && resp.ETag() != drv.QuotedMD5(c.full) {
+				r.Violation(sig("C11", backendClass(kind), "wrong-etag", "adopted-file"), fmt.Sprintf("%s: first GET of a file the server did not write returns ETag %s, the bytes hash to %s", kind, resp.ETag(), drv.QuotedMD5(c.full)), nil)
+			}
+		}
+		// rewritten behind the server's back (other size), then first access with a range
+		for i, c := range cases {
+			if i%3 != 0 {
+				continue
+			}
+			full := gen.Body(rng, len(c.full)+7+i, gen.PatRandom, uint32(5000+i))
+			os.WriteFile(filepath.Join(root, c.key), full, 0644)
+			h := fmt.Sprintf("bytes=%d-%d", 3, len(full)-2)
+			resp := s.Do(&drv.Req{Method: "GET", Path: drv.ObjPath(bucket, c.key), Header: drv.H("Range", h)})
+			r.Count("first_access_to_rewritten_file", 1)
+			checkRange(r, kind, "http-rewritten-file", int64(len(full)), full, h, rangeObs{status: resp.Status, code: resp.ErrCode(), body: resp.Body,
+				clen: resp.Header.Get("Content-Length"), crange: resp.Header.Get("Content-Range"), panicV: resp.Panic})
+		}
+		s.Close()
+		os.RemoveAll(dir)
+	}
+	r.Require("first_access_to_adopted_file", 50)
 	r.Sample(map[string]interface{}{"size": 5, "range": "bytes=1-9", "oracle": "bytes 1-4/5"})
 	r.Sample(map[string]interface{}{"size": 5, "range": "bytes=-7", "oracle": "416 InvalidRange"})
 	r.Sample(map[string]interface{}{"size": 5, "range": "bytes=0-9223372036854775807", "oracle": "bytes 0-4/5"})
